@@ -196,7 +196,12 @@ class Interp:
                 if self.hook is not None and id(e) not in hooked:
                     # the rule's witnesses come first (a marker for a constructor the folder could also fold)
                     precache()
-                    r = self.hook(e, env, self)
+                    try:
+                        r = self.hook(e, env, self)
+                    except (_Raise, _Unknown, _Return, _Break, _Continue):
+                        raise
+                    except Exception as err:  # a failure inside the rule's witness code is the checker's, not the code's
+                        raise _Unknown(f"witness hook failed on {ast.unparse(e)[:60]}: {err!r}")
                     if r is not UNKNOWN:
                         return r
                     hooked.add(id(e))
@@ -375,7 +380,7 @@ class Interp:
             v = UNKNOWN  # calls inside a display / comprehension are evaluated one by one so that the rule's witnesses see them
         else:
             v = self.ctx.folder.eval(e, self.module, env=env)
-        if v is not UNKNOWN and not (isinstance(e, (ast.Tuple, ast.List, ast.Dict, ast.Set)) and _has_unknown(v)):
+        if v is not UNKNOWN and not _has_unknown(v):
             return v
         if isinstance(e, ast.Compare) and len(e.ops) > 1:
             left = e.left
@@ -768,6 +773,24 @@ class Interp:
                         continue
                 if not broke:
                     self.block(st.orelse, env, depth)
+            elif isinstance(st, ast.While):
+                rounds, broke = 0, False
+                while self.ev(st.test, env, depth):
+                    rounds += 1
+                    if rounds > 64:
+                        raise _Unknown("while loop does not end on the witness within 64 rounds")
+                    try:
+                        self.block(st.body, env, depth)
+                    except _Break:
+                        broke = True
+                        break
+                    except _Continue:
+                        continue
+                if not broke:
+                    self.block(st.orelse, env, depth)
+            elif isinstance(st, ast.AnnAssign):
+                if st.value is not None:
+                    self.store(st.target, self.ev(st.value, env, depth), env, depth)
             elif isinstance(st, ast.Return):
                 raise _Return(self.ev(st.value, env, depth) if st.value is not None else None)
             elif isinstance(st, ast.Raise):
